@@ -6,6 +6,7 @@ import (
 	"bytes"
 	"context"
 	"fmt"
+	"io"
 	"runtime"
 	"strings"
 	"testing"
@@ -39,6 +40,12 @@ type Case struct {
 	// ResumeWhileOpen: additionally resume at a block offset while the first
 	// scanner is still open and blocked inside that block.
 	ResumeWhileOpen bool
+	// ResumeReader: how the resumed scanners get their input: 0 a reader over
+	// the bytes from the offset on; 1 a bytes.Reader over the whole file, seeked
+	// to the offset (as a caller holding the file does); 2 such a reader whose
+	// Seek is hidden (io.Reader only). The counters are relative to where the
+	// scanner started reading in every case.
+	ResumeReader int
 }
 
 func skipped(c *Case, o osm.Object) bool {
@@ -167,6 +174,16 @@ func run(c Case) error {
 	}
 	for b := range enc.Blocks {
 		r := newScanner(&c, enc.Data[off(b):], c.ResumeProcs)
+		if c.ResumeReader > 0 {
+			rd := bytes.NewReader(enc.Data)
+			rd.Seek(off(b), io.SeekStart)
+			var in io.Reader = rd
+			if c.ResumeReader == 2 {
+				in = struct{ io.Reader }{rd}
+			}
+			r = osmpbf.New(context.Background(), in, c.ResumeProcs)
+			r.SkipNodes, r.SkipWays, r.SkipRelations = c.SkipNodes, c.SkipWays, c.SkipRelations
+		}
 		var rest []osm.Object
 		k := firstOfBlock(b)
 		j := k
@@ -272,7 +289,7 @@ func classify(c Case) (bool, []string) {
 func TestResume(t *testing.T) {
 	harness.Run(t, harness.Spec[Case]{
 		Name: "resume", N: 500,
-		Rule: "generated PBF files (1..7 blocks; byte offsets known to the encoder) x skip flags (which create empty blocks) x decoder counts (resumed scanners with 1, 2, 4, 11 or 16 decoders, i.e. also with unbuffered per-decoder queues; half of them call Header() before the first Scan or after the first object); every stop position is evaluated in one pass (counters read after every Scan) and a second scanner is started at EVERY block offset; an extra early-stopped scanner is closed after a drawn number of objects; oracle = encoder's block offsets and the model's remaining objects; non-trivial = at least two data blocks (has-empty-block counted separately)",
+		Rule: "resumed scanners read a buffer cut at the offset, or (half of the cases) a seekable reader over the whole file positioned at the offset, or that reader with its Seek hidden: counters stay relative to the start; generated PBF files (1..7 blocks; byte offsets known to the encoder) x skip flags (which create empty blocks) x decoder counts (resumed scanners with 1, 2, 4, 11 or 16 decoders, i.e. also with unbuffered per-decoder queues; half of them call Header() before the first Scan or after the first object); every stop position is evaluated in one pass (counters read after every Scan) and a second scanner is started at EVERY block offset; an extra early-stopped scanner is closed after a drawn number of objects; oracle = encoder's block offsets and the model's remaining objects; non-trivial = at least two data blocks (has-empty-block counted separately)",
 		Gen: func(t *rapid.T) Case {
 			return Case{
 				File:            pbfgen.GenFile(t, pbfgen.Opt{MinBlocks: 1, MaxBlocks: 7}),
@@ -280,6 +297,7 @@ func TestResume(t *testing.T) {
 				ResumeProcs:     rapid.SampledFrom([]int{1, 2, 4, 11, 16}).Draw(t, "rprocs"),
 				ResumeHeader:    rapid.SampledFrom([]int{0, 0, 1, 2}).Draw(t, "rheader"),
 				ResumeWhileOpen: rapid.IntRange(0, 3).Draw(t, "whileOpen") == 0,
+				ResumeReader:    rapid.SampledFrom([]int{0, 1, 1, 2}).Draw(t, "rreader"),
 				SkipNodes:       rapid.IntRange(0, 2).Draw(t, "sn") == 0,
 				SkipWays:        rapid.IntRange(0, 2).Draw(t, "sw") == 0,
 				SkipRelations:   rapid.IntRange(0, 2).Draw(t, "sr") == 0,
@@ -296,6 +314,7 @@ func TestResume(t *testing.T) {
 			m["stop"] = c.Stop
 			m["resume_procs"] = c.ResumeProcs
 			m["resume_header"] = c.ResumeHeader
+			m["resume_reader"] = c.ResumeReader
 			enc := c.File.Encode()
 			var offs []int
 			for _, f := range enc.Blocks {
